@@ -382,6 +382,25 @@ def install(I: Interp, fs: dict):
         if orient != "index":
             I.err(n, f"DataFrame.to_dict(orient={orient!r})")
         return {Num.const(i): TaggedRow({c: f.cols[c][i] for c in f.cols}, f.tags) for i in range(f.nrows)}
+    def mf_drop(I, f, a, k, n):
+        """DataFrame.drop(columns=name | [names]) / drop(name(s), axis=1): a new table without those columns; a missing column is a
+        KeyError unless errors='ignore'"""
+        if "columns" in k:
+            names = k["columns"]
+        elif a and (I.describe(k.get("axis")) in ("1", "'columns'", "columns") or k.get("axis") == "columns"):
+            names = a[0]
+        else:
+            I.err(n, "DataFrame.drop of rows / index labels is not modelled")
+        names = [names] if isinstance(names, str) else list(names)
+        for nm in names:
+            if nm not in f.cols and k.get("errors") != "ignore":
+                raise I.fault("KeyError", n, f"{nm!r} not found in axis")
+        out = MiniFrame({c: v for c, v in f.cols.items() if c not in names}, f.tags)
+        if k.get("inplace") is True:
+            f.cols = out.cols
+            return None
+        return out
+    M[("MiniFrame", "drop")] = mf_drop
     M[("MiniFrame", "to_dict")] = mf_to_dict
 
     def mf_to_csv(I, f, a, k, n):
